@@ -227,6 +227,52 @@ def _mk_as(rng, c, spec, nested=False):
     return True
 
 
+def _mk_as_nested_fs(rng, c, spec):
+    """Alternative-splicing insertion / substitution whose donor segment carries exactly ONE frameshifting indel, plus 1-2
+    small variants in the host transcript downstream of the event (the frame reached through the nested indel has to receive
+    the downstream variants too)."""
+    c.ref = refgen.make_reference(rng, n_genes=1, coding_p=1.0, sec_p=0.0, nf_p=0.0, min_exons=2, max_exons=4,
+                                  intron_len=(30, 90), exon_len=(60, 140))
+    tx = c.ref.genes[0].txs[0]
+    if not tx.coding:
+        return False
+    asv = None
+    for _ in range(20):
+        asv = _rand_as(rng, c.ref, tx)
+        if asv is not None and asv.kind != 'Deletion' and asv.de - asv.ds >= 8:
+            break
+        asv = None
+    if asv is None:
+        return False
+    gs = c.ref.gene_seq(tx.gene)
+    g = rng.randint(asv.ds + 1, asv.de - 4)
+    k = rng.choice([1, 2])
+    if rng.random() < 0.5:
+        nested = Small(tx.gene, tx, g, gs[g], gs[g] + ''.join(rng.choice('ACGT') for _ in range(k)))
+    else:
+        if g + k + 1 >= asv.de - 1:
+            return False
+        nested = Small(tx.gene, tx, g, gs[g:g + k + 1], gs[g])
+    anchor = asv.anchor if asv.kind == 'Insertion' else asv.ge - 1
+    ta = tx.gene2tx(anchor)
+    if ta is None or ta < _start_index(tx) or ta > tx.cds[1] - 12:
+        return False
+    host = {}
+    for _ in range(rng.randint(1, 2)):
+        t = ta + rng.randint(2, 40)
+        if t >= tx.tx_len() - 2:
+            continue
+        v = gvfgen.rand_small(rng, c.ref, tx, tx.tx2gene(t), max_indel=2, snv_p=0.7)
+        if v is not None:
+            host[v.id] = v
+    if not host:
+        return False
+    small = sorted([nested] + list(host.values()), key=lambda v: (v.gstart, v.gend, v.alt))
+    c.files = [('v1.gvf', 'gSNP', small), ('as.gvf', 'AltSplice', [asv])]
+    c.cfg.update(rule='trypsin', exception=None)
+    return True
+
+
 def _mk_as_nested(rng, c, spec):
     return _mk_as(rng, c, spec, nested=True)
 
